@@ -47,7 +47,7 @@ def run(tier, seed):
     def shard(k):
         trace = os.path.join(wd, f"trace{k}.ndjson")
         harness(["screen", "--out", trace, "--seed", seed * 1000 + k, "--rounds", 1 if quick else 3, "--frames", 2,
-                 "--long", 300, "--beam", 2 if quick else 6])
+                 "--long", 300, "--beam", 6 if quick else 12])
         return (trace,) + validate(trace, f"t{k}")
 
     res = parallel([mc] + [lambda k=k: shard(k) for k in range(shards)])
